@@ -92,6 +92,13 @@ def cases(cls, tier):
     elif cls == 'ResumeOKFrame':
         for p, ig in itertools.product(POS, B):
             yield dict(stream_id=0, last_received_client_position=p, flags_ignore=ig)
+    if cls in ('PayloadFrame', 'RequestResponseFrame', 'RequestStreamFrame', 'RequestChannelFrame', 'RequestFireAndForgetFrame'):
+        # lengths that need the 2nd / 3rd byte of the 24-bit fields
+        for dl, ml in ((70000, 1), (255, 65536), (65535, 256)):
+            d = dict(stream_id=3, data=bytes(dl), metadata=bytes(ml), flags_ignore=False)
+            if cls in ('RequestStreamFrame', 'RequestChannelFrame'):
+                d['initial_request_n'] = 2
+            yield d
     if tier == 'thorough' and cls in ('PayloadFrame', 'RequestResponseFrame', 'RequestStreamFrame', 'RequestChannelFrame',
                                       'RequestFireAndForgetFrame'):
         big = bytes(thorough_extra()['big_data'])
